@@ -195,6 +195,8 @@ package replicator
 //@   ghost H0 := semHeld(r.sem)
 //@   assert @ before call r.processEntryDone#1: fetched == (lastItemsErr(r) == nil) && e != nil
 //@   ensures result != nil ==> len(deref(r.queue)) == len(Q0) - 1 && !(itemHash(Q0[0]) in r.tasks)
+//@   ensures result == nil && lastItemsErr(r) != nil ==> !(itemHash(Q0[0]) in r.tasks)
+//@   ensures result == nil && lastItemsErr(r) == nil ==> (itemHash(Q0[0]) in r.tasks) && r.tasks[itemHash(Q0[0])] == stateFetched
 //@   ensures semHeld(r.sem) == H0
 
 // ---- C04 C10 C11: one fetched hash = one buffered log, fetched by content address for this database ----
